@@ -82,7 +82,7 @@ psRes_t validateRecordHdrType(ssl_t *ssl)
 }
 
 static inline
-psRes_t validateRecordHdrVersion(ssl_t *ssl)
+psRes_t validateRecordHdrVersion(ssl_t *ssl, psBool_t *discard)
 {
     psProtocolVersion_t recordVer;
     psBool_t ok = PS_TRUE;
@@ -167,6 +167,18 @@ psRes_t validateRecordHdrVersion(ssl_t *ssl)
     }
 
 out_fail_mismatch:
+# ifdef USE_DTLS
+    /* DTLS: a record of another DTLS version than the negotiated one is an
+       invalid record, and those are discarded without an alert (RFC 6347
+       4.1.2.7).  They are ordinary: a ClientHello is written before the
+       version is negotiated, and its retransmissions and network duplicates
+       can arrive at any later time */
+    if (ACTV_VER(ssl, v_dtls_any) && (recordVer & v_dtls_any))
+    {
+        *discard = PS_TRUE;
+        return MATRIXSSL_SUCCESS;
+    }
+# endif
     psTraceErrr("Record header version does not match negotiated\n");
 
 out_fail:
@@ -245,10 +257,13 @@ psResSize_t handleRecordHdr(ssl_t *ssl,
         unsigned char *c,
         unsigned char *end,
         uint32_t *requiredLen,
-        int32 *error)
+        int32 *error,
+        psBool_t *discard)
 {
     unsigned char *orig_c = c;
     psRes_t res;
+
+    *discard = PS_FALSE;
 
 # ifdef ALLOW_SSLV2_CLIENT_HELLO_PARSE
     if (isSslv2ClientHelloRecord(ssl, c, end))
@@ -280,7 +295,7 @@ psResSize_t handleRecordHdr(ssl_t *ssl,
 
     ssl->rec.majVer = *c; c++;
     ssl->rec.minVer = *c; c++;
-    res = validateRecordHdrVersion(ssl);
+    res = validateRecordHdrVersion(ssl, discard);
     if (res != MATRIXSSL_SUCCESS)
     {
         return res;
@@ -469,6 +484,7 @@ int32_t matrixSslDecodeTls12AndBelow(ssl_t *ssl,
     unsigned char macError;
     int32 rc;
     unsigned char padLen;
+    psBool_t discardRec = PS_FALSE;
 
 # ifdef USE_CLIENT_SIDE_SSL
     sslSessOpts_t options;
@@ -580,7 +596,7 @@ decodeMore:
 #endif /* USE_CERT_CHAIN_PARSING */
 
     /* Parse and validate the record header. */
-    rc = handleRecordHdr(ssl, c, end, requiredLen, error);
+    rc = handleRecordHdr(ssl, c, end, requiredLen, error, &discardRec);
     if (rc < 0)
     {
         if (ssl->err != SSL_ALERT_NONE)
@@ -744,6 +760,17 @@ SKIP_RECORD_PARSE:
 #ifdef USE_DTLS
     if (ACTV_VER(ssl, v_dtls_any))
     {
+        if (discardRec)
+        {
+            /* Header version is not the negotiated one: skip the record */
+            c += ssl->rec.len;
+            *buf = c;
+            if (end - c > 0)
+            {
+                goto decodeMore;
+            }
+            return MATRIXSSL_SUCCESS;
+        }
 
         /* Epoch and RSN validation. Silently ignore most mismatches (SUCCESS) */
         rc = dtlsCompareEpoch(ssl->rec.epoch, ssl->expectedEpoch);
